@@ -1,1 +1,803 @@
-fn main(){}
+#![recursion_limit = "512"]
+//! parsim — deterministic simulation of flacenc's multi-thread encoder.
+//!
+//! `parsim run  ...` explores workloads x schedules for one property and writes a coverage summary;
+//! `parsim exec ...` re-executes one replay file (exactly, or searching schedules for it).
+//! Exit codes: 0 = nothing found, 3 = violation candidate written, 2 = harness error.
+
+#[path = "../../common/rng.rs"]
+mod rng;
+#[path = "../../common/simsource.rs"]
+mod simsource;
+#[path = "../../common/workload.rs"]
+mod workload;
+
+mod exec;
+mod sched;
+
+use exec::{execute_batch, parse_streaminfo, ErrInfo, ExecPlan, ExecResult, Mode, INFLIGHT};
+use rng::{fnv, mix, Rng};
+use sched::{random_policy, Policy};
+use serde::{Deserialize, Serialize};
+use serde_json::json;
+use std::collections::{BTreeMap, BTreeSet};
+use std::sync::Arc;
+use workload::{gen, Fault, Purpose, Tier, Workload};
+
+#[derive(Serialize, Deserialize, Clone, Debug)]
+struct Observed {
+    class: String,
+    site: String,
+    message: String,
+    detail: String,
+}
+
+#[derive(Serialize, Deserialize, Clone, Debug)]
+struct ScheduleSpec {
+    policy: Policy,
+    seed: u64,
+    #[serde(default)]
+    choices: Vec<u32>,
+}
+
+#[derive(Serialize, Deserialize, Clone, Debug)]
+struct ReplayFile {
+    property: String,
+    engine: String,
+    verif_seed: u64,
+    run_index: u64,
+    sched_index: u64,
+    tier: String,
+    mode: Mode,
+    workload: Workload,
+    schedule: ScheduleSpec,
+    observed: Option<Observed>,
+    #[serde(default)]
+    minimised: bool,
+    #[serde(default)]
+    notes: Vec<String>,
+}
+
+struct Ctx {
+    prop: String,
+    seed: u64,
+    tier: String,
+    replay_out: String,
+}
+
+std::thread_local! {
+    static CTX: std::cell::RefCell<Option<Ctx>> = const { std::cell::RefCell::new(None) };
+}
+
+fn norm_msg(m: &str) -> String {
+    // message head with digits collapsed, so that a signature survives changes of counts / line numbers
+    let mut out = String::new();
+    let mut last_digit = false;
+    for c in m.chars().take(160) {
+        if c.is_ascii_digit() {
+            if !last_digit {
+                out.push('#');
+            }
+            last_digit = true;
+        } else {
+            last_digit = false;
+            out.push(if c == '\n' { ' ' } else { c });
+        }
+    }
+    out
+}
+
+fn write_replay_and_exit(
+    w: &Workload,
+    mode: Mode,
+    policy: &Policy,
+    sched_seed: u64,
+    choices: Vec<u32>,
+    run_index: u64,
+    sched_index: u64,
+    obs: Observed,
+) -> ! {
+    let (prop, seed, tier, path) = CTX.with(|c| {
+        let c = c.borrow();
+        let c = c.as_ref().expect("ctx");
+        (c.prop.clone(), c.seed, c.tier.clone(), c.replay_out.clone())
+    });
+    let rf = ReplayFile {
+        property: prop,
+        engine: "parsim".into(),
+        verif_seed: seed,
+        run_index,
+        sched_index,
+        tier,
+        mode,
+        workload: w.clone(),
+        schedule: ScheduleSpec {
+            policy: policy.clone(),
+            seed: sched_seed,
+            choices,
+        },
+        observed: Some(obs.clone()),
+        minimised: false,
+        notes: vec![],
+    };
+    let path = path
+        .replace("{i}", &run_index.to_string())
+        .replace("{s}", &sched_index.to_string());
+    if let Some(dir) = std::path::Path::new(&path).parent() {
+        let _ = std::fs::create_dir_all(dir);
+    }
+    std::fs::write(&path, serde_json::to_string_pretty(&rf).unwrap()).expect("write replay");
+    println!("CANDIDATE {path}");
+    println!(
+        "RESULT {}",
+        json!({"violation": true, "class": obs.class, "site": obs.site, "message": norm_msg(&obs.message), "detail": obs.detail})
+    );
+    use std::io::Write;
+    let _ = std::io::stdout().flush();
+    std::process::exit(3);
+}
+
+fn violation(res_ctx: (&Workload, Mode, &Policy, u64, &ExecResult, u64, u64), class: &str, detail: String) -> ! {
+    let (w, mode, policy, seed, r, i, s) = res_ctx;
+    write_replay_and_exit(
+        w,
+        mode,
+        policy,
+        seed,
+        r.choices.clone(),
+        i,
+        s,
+        Observed {
+            class: class.into(),
+            site: String::new(),
+            message: String::new(),
+            detail,
+        },
+    )
+}
+
+fn harness_error(msg: &str) -> ! {
+    eprintln!("HARNESS-ERROR: {msg}");
+    println!("RESULT {}", json!({"harness_error": msg}));
+    std::process::exit(2);
+}
+
+fn install_hook() {
+    // make shuttle install (once) its own hook first, then replace it.
+    shuttle::check_random(|| {}, 1);
+    std::panic::set_hook(Box::new(|info| {
+        let msg = if let Some(s) = info.payload().downcast_ref::<&str>() {
+            (*s).to_owned()
+        } else if let Some(s) = info.payload().downcast_ref::<String>() {
+            s.clone()
+        } else {
+            "<non-string panic payload>".to_owned()
+        };
+        let loc = info
+            .location()
+            .map_or_else(|| "<unknown>".to_owned(), |l| format!("{}:{}", l.file(), l.line()));
+        let file = info.location().map_or("", |l| l.file()).to_owned();
+        let inflight = INFLIGHT.with(|c| c.try_borrow_mut().ok().and_then(|mut c| c.take()));
+        let Some(inf) = inflight else {
+            eprintln!("HARNESS-ERROR: panic outside an execution at {loc}: {msg}");
+            println!("RESULT {}", json!({"harness_error": format!("panic outside execution at {loc}: {msg}")}));
+            std::process::exit(2);
+        };
+        let rec = flacenc::verif::snapshot_record();
+        let is_engine = file.contains("shuttle-engine") || file.contains("shuttle-std") || file.contains("shuttle-0.");
+        let (class, site) = if msg.starts_with("deadlock!") {
+            ("deadlock".to_owned(), String::new())
+        } else if msg.starts_with("exceeded max_steps") {
+            ("no_progress".to_owned(), String::new())
+        } else if msg.contains("VERIF-UNSUPPORTED") || msg.contains("HARNESS") || is_engine || file.contains("/verif/") {
+            eprintln!("HARNESS-ERROR: {msg} at {loc}");
+            println!("RESULT {}", json!({"harness_error": format!("{msg} at {loc}")}));
+            std::process::exit(2);
+        } else {
+            let short = file.rsplit("/repo/").next().unwrap_or(&file).to_owned();
+            ("panic".to_owned(), short)
+        };
+        let mut detail = format!("at {loc}");
+        if let Some(rec) = &rec {
+            let blocked: Vec<String> = rec
+                .threads
+                .iter()
+                .filter(|(_, s)| **s != flacenc::verif::ThreadState::Finished)
+                .map(|(t, s)| format!("t{t}:{s:?}"))
+                .collect();
+            detail.push_str(&format!("; threads [{}]; chan_lens {:?}", blocked.join(","), rec.chan_lens));
+        }
+        let (site, detail) = if class == "deadlock" || class == "no_progress" {
+            // signature of a hang: the multiset of blocked states (channel ids are creation-ordered)
+            let mut sig: Vec<String> = rec
+                .as_ref()
+                .map(|r| {
+                    r.threads
+                        .iter()
+                        .filter(|(_, s)| **s != flacenc::verif::ThreadState::Finished)
+                        .map(|(t, s)| if *t == 0 { format!("main:{s:?}") } else { format!("{s:?}") })
+                        .collect()
+                })
+                .unwrap_or_default();
+            sig.sort();
+            sig.dedup();
+            (sig.join("+"), detail)
+        } else {
+            (site, detail)
+        };
+        let choices = inf.sched.try_borrow().map(|s| s.choices.clone()).unwrap_or_default();
+        write_replay_and_exit(
+            &inf.w,
+            inf.mode,
+            &inf.policy,
+            inf.sched_seed,
+            choices,
+            inf.run_index,
+            inf.sched_index,
+            Observed {
+                class,
+                site,
+                message: msg,
+                detail,
+            },
+        );
+    }));
+}
+
+#[derive(Default)]
+struct Cov {
+    workloads: u64,
+    executions: u64,
+    par_executions: u64,
+    nontrivial: u64,
+    distinct: BTreeSet<u64>,
+    distinct_nontrivial: BTreeSet<u64>,
+    completion_orders: BTreeSet<u64>,
+    out_of_order_runs: u64,
+    blocking_runs: u64,
+    steps: u64,
+    events: u64,
+    states: BTreeSet<u64>,
+    transitions: BTreeSet<(u64, u64)>,
+    chan_max_len: Vec<usize>,
+    blocking_sends: Vec<u64>,
+    blocking_recvs: Vec<u64>,
+    hashq_full_runs: u64,
+    policies: BTreeMap<String, u64>,
+    faults_fired: BTreeMap<String, u64>,
+    fault_free_runs: u64,
+    order_divergent: u64,
+    err_results: u64,
+    ok_results: u64,
+    max_tasks: usize,
+    workers_hist: BTreeMap<String, u64>,
+    delivery_hist: BTreeMap<String, u64>,
+    bits_hist: BTreeMap<String, u64>,
+    max_hash_lag: usize,
+    samples: Vec<serde_json::Value>,
+    digests: Vec<String>,
+    skipped_single_err: u64,
+    budget_max_ratio: f64,
+    slowest: Vec<(u64, u64)>,
+    skipped_oversize_output: u64,
+}
+
+fn policy_name(p: &Policy) -> &'static str {
+    match p {
+        Policy::Uniform => "uniform",
+        Policy::Sticky { .. } => "sticky",
+        Policy::Pct { .. } => "pct",
+        Policy::Starve { .. } => "starve",
+        Policy::RoundRobin => "round_robin",
+        Policy::Deviations { .. } => "deviations",
+        Policy::Replay => "replay",
+    }
+}
+
+impl Cov {
+    fn absorb(&mut self, w: &Workload, whash: u64, policy: &Policy, r: &ExecResult, mode: Mode) {
+        self.executions += 1;
+        self.steps += r.choices.len() as u64;
+        self.events += r.record.n_events;
+        let ratio = r.choices.len() as f64 / exec::step_budget(w) as f64;
+        if ratio > self.budget_max_ratio {
+            self.budget_max_ratio = ratio;
+        }
+        if mode != Mode::Par {
+            return;
+        }
+        self.par_executions += 1;
+        *self.policies.entry(policy_name(policy).into()).or_default() += 1;
+        let done: Vec<u64> = r
+            .record
+            .probes
+            .iter()
+            .filter(|(t, _)| *t == "frame_done")
+            .map(|(_, v)| *v)
+            .collect();
+        let ooo = done.windows(2).any(|p| p[0] > p[1]);
+        let blocking = r.record.blocking_sends.iter().chain(r.record.blocking_recvs.iter()).any(|c| *c > 0);
+        let mut oh = 0u64;
+        for d in &done {
+            oh = mix(oh, *d + 1);
+        }
+        self.completion_orders.insert(mix(oh, done.len() as u64));
+        if ooo {
+            self.out_of_order_runs += 1;
+        }
+        if blocking {
+            self.blocking_runs += 1;
+        }
+        let key = mix(whash, r.sched_hash);
+        self.distinct.insert(key);
+        if ooo || blocking {
+            self.nontrivial += 1;
+            self.distinct_nontrivial.insert(key);
+        }
+        for s in &r.record.states {
+            self.states.insert(*s);
+        }
+        for t in &r.record.transitions {
+            self.transitions.insert(*t);
+        }
+        for (i, l) in r.record.chan_max_len.iter().enumerate() {
+            if self.chan_max_len.len() <= i {
+                self.chan_max_len.resize(i + 1, 0);
+                self.blocking_sends.resize(i + 1, 0);
+                self.blocking_recvs.resize(i + 1, 0);
+            }
+            self.chan_max_len[i] = self.chan_max_len[i].max(*l);
+            self.blocking_sends[i] += r.record.blocking_sends[i];
+            self.blocking_recvs[i] += r.record.blocking_recvs[i];
+        }
+        if r.record.blocking_sends.get(2).copied().unwrap_or(0) > 0 {
+            self.hashq_full_runs += 1;
+        }
+        if let Some(l) = r.record.chan_max_len.get(2) {
+            self.max_hash_lag = self.max_hash_lag.max(*l);
+        }
+        self.max_tasks = self.max_tasks.max(r.record.spawned + 1);
+        for f in &r.outcome.fired {
+            *self.faults_fired.entry((*f).into()).or_default() += 1;
+        }
+        if r.outcome.fired.is_empty() {
+            self.fault_free_runs += 1;
+        }
+        match &r.outcome.result {
+            Ok(_) => self.ok_results += 1,
+            Err(_) => self.err_results += 1,
+        }
+    }
+}
+
+fn check_streaminfo(w: &Workload, r: &ExecResult) -> Option<String> {
+    let Ok(bytes) = &r.outcome.result else {
+        return Some(format!("fault-free encode returned an error: {:?}", r.outcome.result.as_ref().err()));
+    };
+    let Some(si) = parse_streaminfo(bytes) else {
+        return Some("emitted bytes do not start with fLaC + a 34-byte STREAMINFO".into());
+    };
+    let consumed = (r.outcome.handed_len / w.channels) as u64;
+    let mut bad = vec![];
+    if si.rate as usize != w.rate {
+        bad.push(format!("sample_rate {} != {}", si.rate, w.rate));
+    }
+    if si.channels as usize != w.channels {
+        bad.push(format!("channels {} != {}", si.channels, w.channels));
+    }
+    if si.bits as usize != w.bits {
+        bad.push(format!("bits {} != {}", si.bits, w.bits));
+    }
+    if si.total != consumed {
+        bad.push(format!("total_samples {} != consumed {}", si.total, consumed));
+    }
+    if si.md5 != r.outcome.handed_md5 {
+        bad.push(format!(
+            "md5 {} != md5(input) {}",
+            hex(&si.md5),
+            hex(&r.outcome.handed_md5)
+        ));
+    }
+    if bad.is_empty() {
+        None
+    } else {
+        Some(bad.join("; "))
+    }
+}
+
+fn hex(b: &[u8]) -> String {
+    b.iter().map(|x| format!("{x:02x}")).collect()
+}
+
+fn first_diff(a: &[u8], b: &[u8]) -> String {
+    let n = a.len().min(b.len());
+    let at = (0..n).find(|i| a[*i] != b[*i]);
+    format!(
+        "len {} vs {}, first differing byte {:?}",
+        a.len(),
+        b.len(),
+        at.or(if a.len() == b.len() { None } else { Some(n) })
+    )
+}
+
+fn res_summary(r: &Result<Vec<u8>, ErrInfo>) -> String {
+    match r {
+        Ok(b) => format!("Ok({} bytes, fnv {:016x})", b.len(), fnv_bytes(b)),
+        Err(e) => format!("Err({}: {})", e.kind, e.text),
+    }
+}
+
+fn fnv_bytes(b: &[u8]) -> u64 {
+    let mut h = 0xcbf2_9ce4_8422_2325u64;
+    for x in b {
+        h ^= u64::from(*x);
+        h = h.wrapping_mul(0x0000_0100_0000_01B3);
+    }
+    h
+}
+
+struct Plan {
+    prop: String,
+    purpose: Purpose,
+    tier: Tier,
+    scheds: u64,
+}
+
+/// Runs one workload through its references and `scheds` schedules; exits the
+/// process with code 3 on the first violation.
+#[allow(clippy::too_many_lines)]
+fn run_workload(plan: &Plan, w: &Workload, run_index: u64, seed: u64, cov: &mut Cov, fixed: Option<&ScheduleSpec>, digests: bool) {
+    let whash = w.hash();
+    let data = Arc::new(w.samples());
+    cov.workloads += 1;
+    *cov.workers_hist
+        .entry(match (&w.workers, &w.env_workers) {
+            (Some(n), _) => format!("cfg:{n}"),
+            (None, Some(e)) => format!("env:{e:?}"),
+            (None, None) => "machine".into(),
+        })
+        .or_default() += 1;
+    *cov.delivery_hist
+        .entry(["ints", "bytes", "mixed"][w.delivery as usize % 3].into())
+        .or_default() += 1;
+    *cov.bits_hist.entry(w.bits.to_string()).or_default() += 1;
+
+    let uni = Policy::Uniform;
+    // plan the whole batch: references first, then the schedules
+    let mut plans = vec![ExecPlan {
+        mode: Mode::Single,
+        policy: uni.clone(),
+        sched_seed: 0,
+        replay: vec![],
+        sched_index: u64::MAX,
+    }];
+    let with_framewise = plan.prop == "C05";
+    if with_framewise {
+        plans.push(ExecPlan {
+            mode: Mode::Framewise,
+            policy: uni.clone(),
+            sched_seed: 0,
+            replay: vec![],
+            sched_index: u64::MAX - 1,
+        });
+    }
+    let nsched = if fixed.is_some() { 1 } else { plan.scheds };
+    for s in 0..nsched {
+        let (policy, sseed, replay) = match fixed {
+            Some(f) => (f.policy.clone(), f.seed, f.choices.clone()),
+            None => {
+                let mut r = Rng::new(mix(mix(seed, run_index), 0x5C4E_D000 + s));
+                let ntasks = w.workers.unwrap_or(3) as u32 + 2;
+                (random_policy(&mut r, ntasks), r.next_u64(), vec![])
+            }
+        };
+        plans.push(ExecPlan {
+            mode: Mode::Par,
+            policy,
+            sched_seed: sseed,
+            replay,
+            sched_index: s,
+        });
+    }
+    let par_plans: Vec<ExecPlan> = plans.iter().filter(|p| p.mode == Mode::Par).cloned().collect();
+    // The single-thread reference runs first, alone: if the library emits a stream far larger
+    // than the raw PCM (its bit-count order selection degenerates on some loud 20/24-bit blocks,
+    // frames of hundreds of MB — the business of C09/C13, not of this simulation) the workload is
+    // skipped and counted instead of paying that cost once per schedule. The criterion is a
+    // function of the emitted bytes only, so it is deterministic.
+    let rest = plans.split_off(1);
+    let single = execute_batch(w, &data, plans, run_index, false).pop().expect("single result");
+    cov.absorb(w, whash, &uni, &single, Mode::Single);
+    if let Ok(b) = &single.outcome.result {
+        let raw = w.total_samples() * w.channels * w.bytes_per_sample();
+        if b.len() > 2 * raw + 4096 {
+            cov.skipped_oversize_output += 1;
+            return;
+        }
+    }
+    let mut results = execute_batch(w, &data, rest, run_index, false).into_iter();
+    let sctx = (w, Mode::Single, &uni, 0u64, &single, run_index, u64::MAX);
+    let has_faults = !w.faults.is_empty();
+
+    match plan.prop.as_str() {
+        "C05" | "C03" | "C14P" => {
+            if has_faults {
+                harness_error("fault plan in a fault-free property run");
+            }
+            if plan.prop == "C03" {
+                if let Some(d) = check_streaminfo(w, &single) {
+                    violation(sctx, "streaminfo_mismatch", format!("single-thread: {d}"));
+                }
+            }
+            if plan.prop == "C05" {
+                let fw = results.next().expect("framewise result");
+                cov.absorb(w, whash, &uni, &fw, Mode::Framewise);
+                if fw.outcome.result != single.outcome.result {
+                    let d = match (&fw.outcome.result, &single.outcome.result) {
+                        (Ok(a), Ok(b)) => first_diff(a, b),
+                        (a, b) => format!("{} vs {}", res_summary(a), res_summary(b)),
+                    };
+                    violation(
+                        (w, Mode::Framewise, &uni, 0, &fw, run_index, u64::MAX - 1),
+                        "bytes_mismatch_framewise_vs_single",
+                        d,
+                    );
+                }
+            }
+            if single.outcome.result.is_err() {
+                cov.skipped_single_err += 1;
+            }
+        }
+        "C06" | "C17P" => {}
+        other => harness_error(&format!("unknown property {other}")),
+    }
+
+    for (pp, par) in par_plans.iter().zip(results) {
+        let (policy, sseed, s) = (pp.policy.clone(), pp.sched_seed, pp.sched_index);
+        if let Some(at) = par.diverged {
+            harness_error(&format!("replay diverged at step {at} (recorded task not runnable)"));
+        }
+        cov.absorb(w, whash, &policy, &par, Mode::Par);
+        let pctx = (w, Mode::Par, &policy, sseed, &par, run_index, s);
+        if digests {
+            cov.digests.push(format!(
+                "{run_index} {s} {whash:016x} {:016x} {:016x} {}",
+                par.sched_hash,
+                par.record.event_hash,
+                res_summary(&par.outcome.result)
+            ));
+        }
+        match plan.prop.as_str() {
+            "C05" | "C14P" => {
+                if par.outcome.result != single.outcome.result {
+                    let d = match (&par.outcome.result, &single.outcome.result) {
+                        (Ok(a), Ok(b)) => first_diff(a, b),
+                        (a, b) => format!("par {} vs single {}", res_summary(a), res_summary(b)),
+                    };
+                    violation(pctx, "bytes_mismatch_par_vs_single", d);
+                }
+            }
+            "C03" => {
+                if let Some(d) = check_streaminfo(w, &par) {
+                    violation(pctx, "streaminfo_mismatch", format!("multi-thread: {d}"));
+                }
+            }
+            "C06" | "C17P" => {
+                // (d) no thread started by the call is alive when it returns
+                if par.outcome.live_at_return != 0 {
+                    let mut st: Vec<String> = par.outcome.live_states.iter().map(|(_, s)| format!("{s:?}")).collect();
+                    st.sort();
+                    st.dedup();
+                    let obs = Observed {
+                        class: "thread_leak".into(),
+                        site: st.join("+"),
+                        message: String::new(),
+                        detail: format!(
+                            "{} thread(s) still alive when the call returned {}: {:?}",
+                            par.outcome.live_at_return,
+                            res_summary(&par.outcome.result),
+                            par.outcome.live_states
+                        ),
+                    };
+                    write_replay_and_exit(w, Mode::Par, &policy, sseed, par.choices.clone(), run_index, s, obs);
+                }
+                if par.record.spawned != par.record.finished {
+                    violation(pctx, "thread_leak_at_end", format!("spawned {} finished {}", par.record.spawned, par.record.finished));
+                }
+                if plan.prop == "C17P" {
+                    // Byzantine source: an error is required, nothing else is compared
+                    if par.outcome.result.is_ok() && !par.outcome.fired.is_empty() {
+                        violation(pctx, "byzantine_accepted", format!("fired {:?}, par returned {}", par.outcome.fired, res_summary(&par.outcome.result)));
+                    }
+                    continue;
+                }
+                match (&single.outcome.result, &par.outcome.result) {
+                    (Ok(a), Ok(b)) => {
+                        if a != b {
+                            violation(pctx, "bytes_mismatch_par_vs_single", first_diff(b, a));
+                        }
+                    }
+                    (Err(se), Err(pe)) => {
+                        let kinds: BTreeSet<&str> = w
+                            .faults
+                            .iter()
+                            .map(|f| match f {
+                                Fault::ReadError { .. } => "Source",
+                                _ => "Config",
+                            })
+                            .collect();
+                        if se == pe {
+                            // identical error
+                        } else if kinds.len() > 1 && (pe.kind == "Source" || pe.kind == "Config") {
+                            // mixed-kind plan: par mode reads ahead, either injected kind is legitimate
+                            cov.order_divergent += 1;
+                        } else if se.kind != pe.kind {
+                            violation(pctx, "error_kind_mismatch", format!("single {se:?} vs par {pe:?}"));
+                        } else if se.kind == "Source" && se.text != pe.text {
+                            violation(pctx, "error_value_mismatch", format!("single {se:?} vs par {pe:?}"));
+                        } else if se.kind == "Config" && se.text != pe.text {
+                            violation(pctx, "error_value_mismatch", format!("single {se:?} vs par {pe:?}"));
+                        }
+                    }
+                    (Err(se), Ok(_)) => {
+                        violation(pctx, "fault_swallowed", format!("single returned {se:?}, par returned Ok"));
+                    }
+                    (Ok(_), Err(pe)) => {
+                        violation(pctx, "spurious_error", format!("single returned Ok, par returned {pe:?}"));
+                    }
+                }
+            }
+            _ => unreachable!(),
+        }
+    }
+    if cov.samples.len() < 4 {
+        cov.samples.push(json!({"run_index": run_index, "workload": w, "single": res_summary(&single.outcome.result)}));
+    }
+}
+
+fn arg<'a>(args: &'a [String], name: &str) -> Option<&'a str> {
+    args.iter().position(|a| a == name).and_then(|i| args.get(i + 1)).map(String::as_str)
+}
+
+fn plan_for(prop: &str, tier: Tier, scheds: u64) -> Plan {
+    let purpose = match prop {
+        "C05" => Purpose::Equivalence,
+        "C03" | "C14P" => Purpose::StreamInfo,
+        "C06" => Purpose::Faults,
+        "C17P" => Purpose::Byzantine,
+        other => harness_error(&format!("unknown property {other}")),
+    };
+    Plan {
+        prop: prop.to_owned(),
+        purpose,
+        tier,
+        scheds,
+    }
+}
+
+fn main() {
+    let args: Vec<String> = std::env::args().collect();
+    if args.len() < 2 {
+        harness_error("usage: parsim run|exec ...");
+    }
+    install_hook();
+    match args[1].as_str() {
+        "run" => cmd_run(&args),
+        "exec" => cmd_exec(&args),
+        "gen" => {
+            // print the workload a run would generate (for debugging / documentation)
+            let prop = arg(&args, "--prop").unwrap_or("C05");
+            let tier = if arg(&args, "--tier") == Some("thorough") { Tier::Thorough } else { Tier::Quick };
+            let seed: u64 = arg(&args, "--seed").unwrap_or("1").parse().unwrap();
+            let i: u64 = arg(&args, "--index").unwrap_or("0").parse().unwrap();
+            let plan = plan_for(prop, tier, 1);
+            let w = gen(plan.purpose, tier, mix(seed, fnv(prop)), i);
+            println!("{}", serde_json::to_string_pretty(&w).unwrap());
+        }
+        other => harness_error(&format!("unknown command {other}")),
+    }
+}
+
+fn cmd_run(args: &[String]) {
+    let prop = arg(args, "--prop").unwrap_or("C05").to_owned();
+    let tier_s = arg(args, "--tier").unwrap_or("quick").to_owned();
+    let tier = if tier_s == "thorough" { Tier::Thorough } else { Tier::Quick };
+    let seed: u64 = arg(args, "--seed").unwrap_or("1").parse().unwrap();
+    let from: u64 = arg(args, "--from").unwrap_or("0").parse().unwrap();
+    let count: u64 = arg(args, "--count").unwrap_or("100").parse().unwrap();
+    let child: u64 = arg(args, "--child").unwrap_or("0").parse().unwrap();
+    let nchild: u64 = arg(args, "--nchild").unwrap_or("1").parse().unwrap();
+    let scheds: u64 = arg(args, "--scheds").unwrap_or("20").parse().unwrap();
+    let out = arg(args, "--out").map(str::to_owned);
+    let digests = arg(args, "--digests").map(str::to_owned);
+    let replay_out = arg(args, "--replay-out").unwrap_or("/verif/replays/cand-{i}-{s}.json").to_owned();
+    CTX.with(|c| {
+        *c.borrow_mut() = Some(Ctx {
+            prop: prop.clone(),
+            seed,
+            tier: tier_s.clone(),
+            replay_out,
+        });
+    });
+    let plan = plan_for(&prop, tier, scheds);
+    let pseed = mix(seed, fnv(&prop));
+    let mut cov = Cov::default();
+    let t0 = std::time::Instant::now();
+    let mut last = from;
+    for i in from..count {
+        let w = gen(plan.purpose, tier, pseed, i);
+        // identical workloads always land in the same child, so per-child distinct counts add up exactly
+        if w.hash() % nchild != child {
+            continue;
+        }
+        let tw = std::time::Instant::now();
+        run_workload(&plan, &w, i, pseed, &mut cov, None, digests.is_some());
+        let ms = tw.elapsed().as_millis() as u64;
+        cov.slowest.push((ms, i));
+        cov.slowest.sort_unstable_by(|a, b| b.cmp(a));
+        cov.slowest.truncate(8);
+        last = i;
+    }
+    let wall = t0.elapsed().as_secs_f64();
+    let summary = json!({
+        "property": prop, "tier": tier_s, "seed": seed, "child": child, "nchild": nchild,
+        "from": from, "count": count, "last_index": last, "wall_s": wall,
+        "workloads": cov.workloads, "executions": cov.executions, "par_executions": cov.par_executions,
+        "nontrivial_runs": cov.nontrivial,
+        "distinct": cov.distinct.len(), "distinct_nontrivial": cov.distinct_nontrivial.len(),
+        "completion_orders": cov.completion_orders.iter().collect::<Vec<_>>(),
+        "out_of_order_runs": cov.out_of_order_runs, "blocking_runs": cov.blocking_runs,
+        "steps": cov.steps, "events": cov.events,
+        "states": cov.states.iter().collect::<Vec<_>>(),
+        "transitions": cov.transitions.iter().map(|(a, b)| mix(*a, *b)).collect::<Vec<_>>(),
+        "chan_max_len": cov.chan_max_len, "blocking_sends": cov.blocking_sends, "blocking_recvs": cov.blocking_recvs,
+        "hashq_full_runs": cov.hashq_full_runs, "max_hash_lag": cov.max_hash_lag,
+        "policies": cov.policies, "faults_fired": cov.faults_fired, "fault_free_runs": cov.fault_free_runs,
+        "order_divergent": cov.order_divergent, "ok_results": cov.ok_results, "err_results": cov.err_results,
+        "max_tasks": cov.max_tasks, "workers_hist": cov.workers_hist, "delivery_hist": cov.delivery_hist,
+        "bits_hist": cov.bits_hist, "skipped_single_err": cov.skipped_single_err,
+        "budget_max_ratio": cov.budget_max_ratio,
+        "slowest_ms_index": cov.slowest,
+        "skipped_oversize_output": cov.skipped_oversize_output,
+        "samples": cov.samples,
+    });
+    if let Some(p) = out {
+        std::fs::write(&p, serde_json::to_string(&summary).unwrap()).expect("write summary");
+    } else {
+        println!("{}", serde_json::to_string_pretty(&summary).unwrap());
+    }
+    if let Some(p) = digests {
+        std::fs::write(&p, cov.digests.join("\n") + "\n").expect("write digests");
+    }
+}
+
+fn cmd_exec(args: &[String]) {
+    let file = arg(args, "--file").unwrap_or_else(|| harness_error("--file required"));
+    let text = std::fs::read_to_string(file).unwrap_or_else(|e| harness_error(&format!("cannot read {file}: {e}")));
+    let rf: ReplayFile = serde_json::from_str(&text).unwrap_or_else(|e| harness_error(&format!("bad replay file: {e}")));
+    let search: u64 = arg(args, "--search").unwrap_or("0").parse().unwrap();
+    let sseed: u64 = arg(args, "--search-seed").unwrap_or("1").parse().unwrap();
+    let replay_out = arg(args, "--replay-out").unwrap_or("/verif/replays/exec-out.json").to_owned();
+    CTX.with(|c| {
+        *c.borrow_mut() = Some(Ctx {
+            prop: rf.property.clone(),
+            seed: rf.verif_seed,
+            tier: rf.tier.clone(),
+            replay_out,
+        });
+    });
+    let tier = if rf.tier == "thorough" { Tier::Thorough } else { Tier::Quick };
+    let mut cov = Cov::default();
+    if search == 0 {
+        let plan = plan_for(&rf.property, tier, 1);
+        let mut spec = rf.schedule.clone();
+        if !spec.choices.is_empty() && !matches!(spec.policy, Policy::Deviations { .. }) {
+            spec.policy = Policy::Replay;
+        }
+        run_workload(&plan, &rf.workload, rf.run_index, mix(rf.verif_seed, fnv(&rf.property)), &mut cov, Some(&spec), false);
+    } else {
+        let plan = plan_for(&rf.property, tier, search);
+        run_workload(&plan, &rf.workload, rf.run_index, mix(sseed, 0xEC5E_A4C4), &mut cov, None, false);
+    }
+    println!("RESULT {}", json!({"violation": false, "executions": cov.executions}));
+}
